@@ -976,6 +976,56 @@ theorem describe_outInv {Tx} {cfg : DescribeCfg} {H : Hashes} {C : TxCodec Tx} {
   exact ⟨outs, outsLoop_inv _ _ _ _ houts outInv_init, h4, h3, h2, h1⟩
 
 
+/-! ### the spend bookkeeping counts outputs, not payees -/
+
+/-- `spendSats` / `spends` are the sum / the number of ALL descriptions not labelled change -/
+structure SpendInv (a : OutputsDescribed) : Prop where
+  spd : a.spendSats = ((a.descs.filter (fun d => !d.isChange)).map (·.sats)).sum
+  cnt : a.spends = (a.descs.filter (fun d => !d.isChange)).length
+
+theorem spendInv_init : SpendInv {} := ⟨rfl, rfl⟩
+
+theorem spendInv_next {o : TxOutV} {p : POut} {acc : OutputsDescribed} (hi : SpendInv acc) :
+    SpendInv (outNext o p acc) := by
+  obtain ⟨h1, h2⟩ := hi
+  by_cases hn : p.namedPubs = []
+  · simp only [outNext, hn, ne_eq, not_true_eq_false, if_false]
+    refine ⟨?_, ?_⟩
+    · simp only [List.filter_append, List.map_append, List.sum_append]
+      rw [h1]; simp
+    · simp only [List.filter_append, List.length_append]
+      rw [h2]; simp
+  · simp only [outNext, hn, ne_eq, not_false_eq_true, if_true]
+    refine ⟨?_, ?_⟩
+    · simp only [List.filter_append, List.map_append, List.sum_append]
+      rw [h1]; simp
+    · simp only [List.filter_append, List.length_append]
+      rw [h2]; simp
+
+theorem outsLoop_spendInv {cfg : DescribeCfg} {H : Hashes} {O : Oracles} {hmap : Dict Bytes} {em en : Int} :
+    ∀ (pouts : List POut) (outs : List TxOutV) (acc r : OutputsDescribed),
+      describeOutputsLoop cfg H O hmap em en outs pouts acc = some r → SpendInv acc → SpendInv r := by
+  intro pouts
+  induction pouts with
+  | nil =>
+    intro outs acc r h hi
+    rw [outsLoop_nil] at h
+    cases h; exact hi
+  | cons p pr ih =>
+    intro outs acc r h hi
+    cases outs with
+    | nil => simp [describeOutputsLoop] at h
+    | cons o tr =>
+      obtain ⟨_, _, _, hrest⟩ := outsLoop_cons_some h
+      exact ih tr _ r hrest (spendInv_next hi)
+
+theorem describe_spendInv {Tx} {cfg : DescribeCfg} {H : Hashes} {C : TxCodec Tx} {O : Oracles} {cm : Dict Bytes}
+    {p : Psbt Tx} {s : Summary} (h : describe cfg H C O cm p = some s) :
+    ∃ outs, SpendInv outs ∧ s.outputs = outs.descs ∧ s.spend = outs.spendSats ∧
+      s.isBatch = decide (outs.spends > 1) := by
+  obtain ⟨fee, ins, m, n, outs, _, _, _, _, _, _, houts, _, rfl⟩ := describe_some h
+  exact ⟨outs, outsLoop_spendInv _ _ _ _ houts spendInv_init, rfl, rfl, rfl⟩
+
 /-! ### a toy instance (for the satisfiability examples and defect witnesses of Props/C11) -/
 namespace Toy
 
